@@ -40,6 +40,9 @@ def shapes():
     # progeny listed before their parents (sample order is the order of the BAM arguments, not of the generations)
     S["trio_progeny_first"] = ([2, 2, 2], [(1, 2), (-1, -1), (-1, -1)], [(1, 1)] * 3, [(0, 0)] * 3, 3)
     S["sibs_progeny_first"] = ([2, 2, 2, 2], [(2, 3), (3, 2), (-1, -1), (-1, -1)], [(1, 1)] * 4, [(0, 0)] * 4, 2)
+    # parent-error exactly 0 (documented as legal: --gamete-error 0): the "parent is wrong" branches must vanish, not merely be small
+    for base in ("trio", "trio4", "mixed_2_4_3", "duo"):
+        S[base + "_e0"] = S[base]
     S["threegen_duo_mixed"] = ([4, 4, 4, 3], [(-1, -1), (-1, -1), (0, 1), (2, -1)], [(2, 2), (2, 2), (2, 2), (2, 1)], [(0, 0), (0, 0), (0.1, 0), (0, 0)], 2)
     return S
 
@@ -56,6 +59,8 @@ class Pedigree:
         self.lam = np.array(lam, np.float64)
         ep, eq = ERRSETS[seed % len(ERRSETS)]
         self.err = np.array([[ep, eq] if i % 2 == 0 else [eq * 0.5, ep] for i in range(self.n)], np.float64)
+        if name.endswith("_e0"):
+            self.err[:] = 0.0
         self.maxp = int(self.ploidy.max())
         self.haps = np.array(HAPS[self.H], np.int64)
         fr = [[0.5, 0.5], [0.5, 0.3, 0.2], [0.4, 0.3, 0.2, 0.1]][self.H - 2]
